@@ -1,6 +1,8 @@
 import Driver.C01Mon
 import OidcModel.Generated.RPVerifier
 import OidcModel.Model.RPConstructGen
+import OidcModel.Spec.C01Time
+import OidcModel.Generated.C01Time
 open Kv Drv
 
 namespace Drv.C01
@@ -107,6 +109,46 @@ def specVerifier (l : Line) : Option Verifier :=
   | .ok d => some ((C01.rpConfigured (str l "v.iss") (str l "v.cid") opts d).toVerifier w)
   | .error _ => none
 
+/-! ### (round 4) the spelled time claims: the REGENERATED `Time.UnmarshalJSON` on what is written -/
+
+/-- the JSON value of a spelled claim as the harness's exact reader saw it (`sp.<claim>.*`) -/
+def spelledDoc (l : Line) (p : String) : Cdc.JVal :=
+  match str l (p ++ ".doc") with
+  | "num" => .num { floor := int l (p ++ ".floor"), frac := bool l (p ++ ".frac") }
+  | "str" => .str (str l (p ++ ".raw"))
+  | "null" => .null
+  | _ => .bool true
+
+/-- for every spelled claim: the regenerated decoder, given the exact value of the document, and the property's `writtenTime`
+    both arrive at the harness's own reading (`sp.<claim>.ok`, `.val`), and that reading is the claim the monitor judges by -/
+def spelledOK (l : Line) : Bool :=
+  [("exp", "c.exp"), ("iat", "c.iat"), ("auth_time", "c.auth"), ("nbf", "")].all fun (k, ck) =>
+    let p := "sp." ++ k
+    if !has l p then true else
+    let doc := spelledDoc l p
+    let tp : String → Go.R Int := fun _ => if has l (p ++ ".tp") then .ok (int l (p ++ ".tp")) else .error "time"
+    let want : Option Int := if bool l (p ++ ".ok") then some (int l (p ++ ".val")) else none
+    (GenC01T.TimeUnmarshalJSON 0 { jsonAny := fun _ => .ok doc, timeParse := tp } 0 (str l (p ++ ".raw"))).toOption == want &&
+    C01.writtenTime (fun s => (tp s).toOption) doc == want &&
+    (ck == "" || !bool l "t.json" || want == some (int l ck))
+
+/-- the `aud` member as it is written (`au.*`): the regenerated `Audience.UnmarshalJSON` and the property's `writtenAudience`
+    both arrive at the harness's own reading, and that reading is the audience the monitor judges by -/
+def audOK (l : Line) : Bool :=
+  if !has l "au.doc" then true else
+  let items := list l "au.v"
+  let bad := bool l "au.bad"
+  let doc : Cdc.JVal :=
+    match str l "au.doc" with
+    | "str" => .str (items.headD "")
+    | "arr" => .arr (items.map Cdc.JVal.str ++ (if bad then [.num { floor := 5 }] else []))
+    | "num" => .num { floor := 5 }
+    | _ => .null
+  let want : Option (List String) := if bad then none else some (if str l "au.doc" == "str" || str l "au.doc" == "arr" then items else [])
+  (GenC01T.AudienceUnmarshalJSON 0 { jsonAny := fun _ => .ok doc } [] "").toOption == want &&
+  C01.writtenAudience doc == want &&
+  (!bool l "t.json" || want == some (list l "c.aud"))
+
 def showRP (r : Go.R Claims) : String :=
   match r with
   | .error "construct" => "err:construct"
@@ -126,7 +168,8 @@ def step (l : Line) : String :=
   let modelS := if stable then showRP m0 else "unstable"
   -- the verifier the regenerated constructors arrive at asks for what the application asked for (`v.*`)
   -- ... and so does the property's definition of the configured verifier (`rpConfigured` on the same option lists)
-  let cfgOK := (match v0 with
+  let spOK := spelledOK l && audOK l
+  let cfgOK := spOK && (match v0 with
     | some vm => sameConfig vm v
     | none => true) &&
     (!isRP || (match specVerifier l with
@@ -136,6 +179,6 @@ def step (l : Line) : String :=
     (match m0, obs with
      | .ok c, some o => c == o
      | _, _ => true)))
-  s!"case={str l "case"} model={if cfgOK then modelS else "config-differs"} observed={obsS} monitor={showMon (monitorLine l)} agree={if agree then 1 else 0}"
+  s!"case={str l "case"} model={if !spOK then "time-reading-differs" else if cfgOK then modelS else "config-differs"} observed={obsS} monitor={showMon (monitorLine l)} agree={if agree then 1 else 0}"
 
 end Drv.C01
